@@ -225,10 +225,14 @@ func (s *TxStore) insertMemPoolTx(tx mwdb.DBTransaction, rec *TxRecord) error {
 
 func (s *TxStore) insertMinedTx(tx mwdb.DBTransaction, allBalances map[string]massutil.Amount, rec *TxRecord, block *BlockMeta) error {
 	nsTxRecords := tx.FetchBucket(s.bucketMeta.nsTxRecords)
-	if _, v := existsTxRecord(nsTxRecords, &rec.Hash, block); v != nil {
+	_, v, err := fetchTxRecord(nsTxRecords, &rec.Hash, block)
+	if err != nil {
+		// a failed read is not "no record"
+		return err
+	}
+	if v != nil {
 		return nil
 	}
-	var err error
 	nsBlocks := tx.FetchBucket(s.bucketMeta.nsBlocks)
 	blockKey, blockValue, err := existsBlockRecord(nsBlocks, block.Height)
 	if err != nil {
@@ -257,7 +261,7 @@ func (s *TxStore) insertMinedTx(tx mwdb.DBTransaction, allBalances map[string]ma
 	// If this transaction previously existed within the store as unmined,
 	// we'll need to remove it from the unmined bucket.
 	nsUnmined := tx.FetchBucket(s.bucketMeta.nsUnmined)
-	v, err := existsRawUnmined(nsUnmined, rec.Hash[:])
+	v, err = existsRawUnmined(nsUnmined, rec.Hash[:])
 	if err != nil {
 		return err
 	}
@@ -296,7 +300,11 @@ func (s *TxStore) insertMinedTxForImporting(tx mwdb.DBTransaction,
 	nsBlocks := tx.FetchBucket(s.bucketMeta.nsBlocks)
 	nsTxRecords := tx.FetchBucket(s.bucketMeta.nsTxRecords)
 
-	_, v := existsTxRecord(nsTxRecords, &rec.Hash, block)
+	_, v, err := fetchTxRecord(nsTxRecords, &rec.Hash, block)
+	if err != nil {
+		// a failed read is not "no record": the transaction would be listed twice in its block record
+		return err
+	}
 	exists := v != nil
 
 	blockKey, blockValue, err := existsBlockRecord(nsBlocks, block.Height)
@@ -530,7 +538,10 @@ func (s *TxStore) ExistsTx(tx mwdb.ReadTransaction, out *wire.OutPoint) (mtx *wi
 	}
 
 	if found {
-		_, recVal := existsTxRecord(nsTxRecords, &cred.outPoint.Hash, cred.block)
+		_, recVal, err := fetchTxRecord(nsTxRecords, &cred.outPoint.Hash, cred.block)
+		if err != nil {
+			return nil, nil, err
+		}
 		_, txLoc, err := readTxRecordLoc(recVal)
 		if err != nil {
 			return nil, nil, err
